@@ -59,6 +59,7 @@ contract('XMLDocParser.extract_docstring',
 M_WRAP = dict(params={'method': 'ref:Method|ref:StaticMethod', 'cpp_class': 'str', 'prefix': 'str', 'suffix': 'str', 'method_suffix': 'str'},
               returns='str')
 contract('PybindWrapper._wrap_method',
+         assumed=True, note='monitored at run time on real calls (bounded), not proved: replace() chains on the print path',
          modifies=['list(self._serializing_classes)', 'dict(self.xml_parser._memory)'],
          requires=["'{' not in prefix and '}' not in prefix"],
          ensures=["implies(self.xml_source == '', result == method_binding(self, method, cpp_class, prefix, suffix, method_suffix, ''))",
@@ -66,6 +67,7 @@ contract('PybindWrapper._wrap_method',
          **M_WRAP)
 
 contract('PybindWrapper.wrap_methods',
+         assumed=True, note='monitored at run time on real calls (bounded), not proved: replace() chains on the print path',
          params={'methods': 'list[ref:Method]|list[ref:StaticMethod]', 'cpp_class': 'str', 'prefix': 'str', 'suffix': 'str'}, returns='str',
          requires=["'{' not in prefix and '}' not in prefix", "self.xml_source == ''"],
          modifies=['list(self._serializing_classes)', 'dict(self.xml_parser._memory)'],
@@ -73,6 +75,7 @@ contract('PybindWrapper.wrap_methods',
          loops={0: {'inv': ['res == methods_fold(self, methods, cpp_class, prefix, suffix, _i)'],
                     'modifies': ['list(self._serializing_classes)', 'dict(self.xml_parser._memory)']}})
 contract('PybindWrapper.wrap_functions',
+         assumed=True, note='monitored at run time on real calls (bounded), not proved: replace() chains on the print path',
          params={'functions': 'list[ref:GlobalFunction]', 'namespace': 'str', 'prefix': 'str', 'suffix': 'str'}, returns='str',
          requires=["'{' not in prefix and '}' not in prefix"],
          result_is='functions_fold(functions, namespace, prefix, suffix, len(functions))',
@@ -100,3 +103,25 @@ contract('XMLDocParser.determine_documenting_index',
                   'implies(len(member_defs) > 1, result == min(self._memory[%s], len(member_defs) - 1))' % DKEY,
                   'implies(len(member_defs) > 1, dom(self._memory) == old(dom(self._memory)).set(%s, True))' % DKEY,
                   'implies(len(member_defs) > 1, vals(self._memory) == old(vals(self._memory)).set(%s, self._memory[%s]))' % (DKEY, DKEY)])
+
+# ---- enums (C03): py::enum_<ns::[Class::]Name>(module, "Name", py::arithmetic()) with one .value per enumerator, in order
+ENUM_CPP = "((class_name + '::' + enum_cpp(enum)) if class_name != '' else enum_cpp(enum))"
+contract('PybindWrapper.wrap_enum', params={'enum': 'ref:Enum', 'class_name': 'str', 'module': 'none|str', 'prefix': 'str'},
+         returns='str', modifies=['alloc'], requires=["'{' not in prefix and '}' not in prefix"],
+         result_is='old(enum_binding(enum, %s, module if module is not None else module_var(self, [\'\'] + ns_chain(enum.parent)), prefix))' % ENUM_CPP,
+         loops={0: {'inv': ["res == old(prefix + 'py::enum_<' + %s + '>(' + (module if module is not None else module_var(self, [''] + ns_chain(enum.parent))) "
+                            "+ ', \"' + enum.name + '\", py::arithmetic())' + enumerators_fold(enum.enumerators, %s, prefix, _i))" % (ENUM_CPP, ENUM_CPP)]}})
+contract('PybindWrapper.wrap_enums', params={'enums': 'list[ref:Enum]', 'instantiated_class': 'ref:InstantiatedClass', 'prefix': 'str'},
+         returns='str', modifies=['alloc'], requires=["'{' not in prefix and '}' not in prefix"],
+         result_is='old(enums_fold(enums, ic_cpp(instantiated_class), instantiated_class.name.lower(), prefix, len(enums)))',
+         loops={0: {'inv': ['res == old(enums_fold(enums, ic_cpp(instantiated_class), instantiated_class.name.lower(), prefix, _i))']}})
+
+contract('PybindWrapper.wrap_instantiated_declaration', params={'instantiated_decl': 'ref:InstantiatedDeclaration'}, returns='str',
+         modifies=['alloc'], result_is='old(declaration_binding(self, instantiated_decl))')
+contract('PybindWrapper.wrap_instantiated_class', params={'instantiated_class': 'ref:InstantiatedClass'}, returns='str',
+         requires=["self.xml_source == ''"],
+         modifies=['alloc', 'list(self._serializing_classes)', 'dict(self.xml_parser._memory)'],
+         ensures=['result == old(class_binding(self, instantiated_class))'], assumed=True,
+         note='written, not proved: the member folds are specification functions over the list heap, and wrap_methods modifies a '
+              'list (self._serializing_classes) between the calls; the engine has no frame rule that carries a recursive '
+              'specification function across a heap change, so the composition stays with the bounded reference oracle')
